@@ -47,8 +47,8 @@ YNet:
   edges: []
 """
 
-MODELS = ['A', 'B', 'C', 'D1', 'D3', 'F', 'Y']
-KINDS = ['grf0', 'grf1', 'run', 'runk', 'jac', 'upd', 'clr']
+MODELS = ['A', 'B', 'C', 'D1', 'D3', 'F', 'G', 'Y']
+KINDS = ['grf0', 'grf1', 'run', 'runk', 'jac', 'upd', 'clr', 'again', 'fail', 'opapply']
 GLOBAL_OPS = [['cfc', None]]
 
 
@@ -75,11 +75,11 @@ def build(model, store):
         nd = store['Dnode']
         labels = ['a'] if model == 'D1' else ['a', 'b', 'cc']
         return CircuitTemplate(model, nodes={l: nd for l in labels})
-    if model == 'F':   # edges (in_edge counters); the input is added by the ops
+    if model in ('F', 'G'):   # edges (in_edge counters); F: an input is added by the ops, G: none (same object recompiled)
         so = OperatorTemplate('so', equations=["d/dt * x = -k*x"], variables={'x': 'output(0.8)', 'k': 0.5})
         to = OperatorTemplate('to', equations=["d/dt * v = -v + u + w"],
                               variables={'v': 'output(0.1)', 'u': 'input(0.0)', 'w': 'input(0.0)'})
-        return CircuitTemplate('F', nodes={'s': NodeTemplate('s', operators=[so]), 'g': NodeTemplate('g', operators=[to])},
+        return CircuitTemplate(model, nodes={'s': NodeTemplate('s', operators=[so]), 'g': NodeTemplate('g', operators=[to])},
                                edges=[('s/so/x', 'g/to/u', None, {'weight': 2.0})])
     if model == 'Y':
         if not os.path.exists('ymodel.yaml'):
@@ -95,8 +95,8 @@ def inputs_of(model):
     return None
 
 
-OUT = {'A': 'n/op/x', 'B': 'n/op/x', 'C': 'n/opc/x', 'D1': 'all/opd/x', 'D3': 'all/opd/x', 'F': 'g/to/v', 'Y': 'n/yop2/x'}
-UPD = {'A': 'n/op/k', 'B': 'n/op/k', 'C': 'n/opc/k', 'D1': 'a/opd/k', 'D3': 'b/opd/k', 'F': 's/so/k', 'Y': 'n/yop2/k'}
+OUT = {'G': 'g/to/v', 'A': 'n/op/x', 'B': 'n/op/x', 'C': 'n/opc/x', 'D1': 'all/opd/x', 'D3': 'all/opd/x', 'F': 'g/to/v', 'Y': 'n/yop2/x'}
+UPD = {'G': 's/so/k', 'A': 'n/op/k', 'B': 'n/op/k', 'C': 'n/opc/k', 'D1': 'a/opd/k', 'D3': 'b/opd/k', 'F': 's/so/k', 'Y': 'n/yop2/k'}
 
 
 def norm_name(n):
@@ -114,7 +114,13 @@ def obs_func(func, args, names, svm):
         call[1] = y0 + dlt
         call[2] = np.zeros_like(y0)
         vals.append([round(float(v), 10) for v in np.asarray(func(*call), dtype=float).reshape(-1)])
-    return {'names': [norm_name(n) for n in names[3:]],
+    fabs = []
+    for dlt in (0.0, 0.21):
+        call = list(args)
+        call[1] = 0.3 + 0.1 * np.arange(len(y0)) + dlt
+        call[2] = np.zeros_like(y0)
+        fabs.append([round(float(v), 10) for v in np.asarray(func(*call), dtype=float).reshape(-1)])
+    return {'fabs': fabs, 'names': [norm_name(n) for n in names[3:]],
             'svm': {k: (list(v) if isinstance(v, tuple) else v) for k, v in sorted(svm.items())},
             'args': [[round(float(v), 10) for v in np.asarray(x, dtype=float).reshape(-1)] for x in a[3:]],
             'y0': [round(float(v), 10) for v in y0], 'f': vals}
@@ -134,8 +140,34 @@ def do_op(op, store, live):
             return {'kind': 'noop'}
         t.clear()
         return {'kind': 'cleared'}
+    if kind == 'again':
+        # compile the template object that an earlier operation left behind once more (default in_place=True)
+        t = store.get(('tpl', model))
+        if t is None:
+            return {'kind': 'noop'}
+        inp = inputs_of(model)
+        f, a, n, s = t.get_run_func('vf', vectorize=True, clear=False,
+                                    inputs={k: v.copy() for k, v in inp.items()} if inp else None, **kw)
+        o = obs_func(f, a, n, s)
+        live.append((f, [x.copy() if hasattr(x, 'copy') else x for x in a], n, s, o))
+        return {k: o[k] for k in ('fabs', 'names', 'svm', 'args')}
+    if kind == 'opapply':
+        # direct application of an operator template that has the NAME of the model's operator but other equations
+        from pyrates import OperatorTemplate
+        name = {'A': 'op', 'B': 'op', 'C': 'opc', 'D1': 'opd', 'D3': 'opd', 'F': 'so', 'G': 'so', 'Y': 'yop2'}[model]
+        OperatorTemplate(name, equations=["d/dt * x = -k*x - 1.0"], variables={'x': 'output(2.0)', 'k': 9.0}).apply()
+        return {'kind': 'opapply'}
     circ = build(model, store)
     inp = inputs_of(model)
+    if kind == 'fail':
+        # a compilation that fails half-way (edge to a node that does not exist) and is caught by the caller
+        bad = circ.update_template(edges=[(OUT[model].replace('all', list(circ.nodes)[0]) if circ.nodes else OUT[model],
+                                           'nowhere/op/u', None, {'weight': 1.0})])
+        try:
+            bad.get_run_func('vf', vectorize=True, clear=False, **kw)
+        except Exception as e:
+            return {'kind': 'failed', 'exc': type(e).__name__}
+        return {'kind': 'did_not_fail'}
     if kind in ('grf0', 'grf1', 'upd'):
         if kind == 'upd':
             circ.update_var(node_vars={UPD[model]: 7.0})
@@ -237,6 +269,10 @@ def features(history, i):
         f.add('yaml_template_loaded_before')
     if any(k in ('grf0', 'grf1', 'jac', 'runk', 'upd') for k, _ in prev):
         f.add('uncleared_compile_before')
+    if kind == 'again':
+        last = [k for k, m_ in prev if m_ == model and k in ('grf0', 'grf1', 'upd', 'jac', 'runk')]
+        if last and last[-1] in ('grf0', 'jac'):
+            f.add('same_template_recompiled_with_other_vectorize')
     return sorted(f)
 
 
@@ -279,6 +315,13 @@ def main(ev, tier, seed):
                 exp = solo[json.dumps(h[i])]
                 if h[i][0] == 'clr':
                     continue   # clear() of a stored template has no solo counterpart (its effect is checked via others)
+                if h[i][0] == 'again':
+                    # the same template object compiled again must give the function of its last fresh compilation
+                    last = [k for k, m_ in h[:i] if m_ == h[i][1] and k in ('grf0', 'grf1', 'upd', 'jac', 'runk')]
+                    if not last:
+                        continue
+                    ref = solo[json.dumps(['upd' if last[-1] == 'upd' else 'grf1', h[i][1]])]
+                    exp = {k: ref[k] for k in ('fabs', 'names', 'svm', 'args')} if 'fabs' in ref else ref
                 if o != exp and i == len(h) - 1:     # earlier steps were reported at their own level
                     kind = 'raises' if 'raises' in o else 'observation_differs'
                     v = {'kind': kind, 'step': i, 'op': h[i], 'got': o, 'solo': exp,
@@ -306,6 +349,30 @@ def main(ev, tier, seed):
         frontier = nxt
         if len(ev.cov['samples']) < 4 and nxt:
             ev.sample({'history': nxt[len(nxt) // 2], 'level': lvl})
+    if depth < 3:
+        # depth-3 slice over a reduced alphabet (A-B-A patterns with uncleared compilations)
+        small = [['grf0', 'A'], ['grf0', 'B'], ['grf1', 'C'], ['runk', 'A'], ['again', 'G'], ['grf1', 'G']]
+        import itertools
+        cases = [{'history': [list(o) for o in hh]} for hh in itertools.product(small, repeat=3)]
+        for case, res in pool.run('C13', cases, chunksize=4):
+            h = case['history']
+            n_hist += 1
+            transitions += 1
+            for i, o in enumerate(res.get('obs', [])):
+                if h[i][0] == 'again':
+                    continue
+                exp = solo[json.dumps(h[i])]
+                if o != exp:
+                    kind = 'raises' if 'raises' in o else 'observation_differs'
+                    v = {'kind': kind, 'step': i, 'op': h[i], 'got': o, 'solo': exp,
+                         'sig': {'kind': kind, 'features': features(h, i), 'op_kind': h[i][0], 'exc': o.get('raises')}}
+                    if not findings.match(v, known):
+                        viols.append((case, v))
+                    break
+            for d in res.get('drift', []):
+                viols.append((case, {'kind': 'returned_function_changed', **d, 'sig': {'kind': 'returned_function_changed',
+                                                                                      'features': [], 'op_kind': h[-1][0]}}))
+                break
     ev.cov.update({'states': states, 'transitions': transitions, 'traces_validated_against_impl': n_hist,
                    'evaluations': n_hist, 'depth_completed': depth, 'ops': len(ops),
                    'fresh_interpreter_crosschecks': len(fresh), 'distinct_observations': len(distinct_obs),
